@@ -563,3 +563,73 @@ Proof.
     + intros (o & Ho & _ & Hp). destruct Ho as [<-|[<-|[<-|[<-|[]]]]]; discriminate.
 Qed.
 Print Assumptions passes_agree_dirgate_refuted.
+
+(* ================= tree_sort's duplicate check compares names only (strengthening after seed C06-10) =================
+   dup_check ch = what tree_sort does with one sibling list: list_sort, then the loop over neighbours comparing
+   the two NAMES with strcmp - no other field of the entries takes part.  Some s = accepted, s = the sorted list
+   the three walks use. *)
+From Coq Require Import Sorting.Sorted.
+From SqfsV Require Import C06.DupCheck.
+
+(* if the check passes, the sibling names are pairwise distinct: the hypothesis (sorted_ok) the confinement
+   theorems use *)
+Theorem dup_check_establishes_nodup :
+  forall ch s, dup_check ch = Some s ->
+  Permutation s ch /\ Sorted le_t s /\ NoDup (map iname s) /\ NoDup (map iname ch).
+Proof. exact dup_check_establishes_nodup_l. Qed.
+Print Assumptions dup_check_establishes_nodup.
+
+Theorem dup_check_refuses_only_duplicates :
+  forall ch, NoDup (map iname ch) -> exists s, dup_check ch = Some s.
+Proof. exact dup_check_complete_l. Qed.
+Print Assumptions dup_check_refuses_only_duplicates.
+
+Theorem dup_check_is_tree_sort :
+  forall n k tg xk ch ch', sort_all tree_sort ch = Some (Some ch') ->
+  tree_sort (INode n k tg xk ch) =
+    match dup_check ch' with Some s => SortOk (INode n k tg xk s) | None => SortDup end.
+Proof. exact dup_check_is_tree_sort_l. Qed.
+Print Assumptions dup_check_is_tree_sort.
+
+(* non-vacuity: an accepted level (stored out of order), and the attack level refused *)
+Example dup_check_accepts_instance :
+  dup_check [INode s_x KReg [] [] []; INode s_d KDir [] [] []; INode s_pwn KLnk s_d [] []] =
+    Some [INode s_d KDir [] [] []; INode s_pwn KLnk s_d [] []; INode s_x KReg [] [] []].
+Proof. vm_compute. reflexivity. Qed.
+
+Definition attack_level : list itree :=
+  [ INode s_d KLnk s_up_outside [] []; INode s_x KReg [] [] [];
+    INode s_d KDir [] [] [ INode s_pwn KReg [] [] [] ] ].
+Example dup_check_refuses_attack_level : dup_check attack_level = None.
+Proof. vm_compute. reflexivity. Qed.
+
+(* MODEL OF SEED C06-10's CHANGE (not of the code): equal names pass when the two inodes carry the same
+   inode_number (adjacent_dup_ino; siblings paired with that image-controlled field).  With pairwise distinct
+   numbers it is the real check ... *)
+Theorem dup_check_ino_variant_same_on_distinct_numbers :
+  forall l, NoDup (map snd l) -> adjacent_dup_ino l = adjacent_dup (map fst l).
+Proof. exact adjacent_dup_ino_distinct. Qed.
+Print Assumptions dup_check_ino_variant_same_on_distinct_numbers.
+
+(* ... but it does not establish the hypothesis: link d -> ../outside and directory d (file pwn inside), both
+   inodes numbered 7, form a sorted level that passes; two names are equal, and the operation list of that
+   level, run in a world without any link in R, creates /w/outside/pwn *)
+Definition same_ino_level : list (itree * N) :=
+  [ (INode s_d KLnk s_up_outside [] [], 7);
+    (INode s_d KDir [] [] [ INode s_pwn KReg [] [] [] ], 7) ].
+
+Theorem dup_check_ino_exempt_refuted :
+  exists (s : list (itree * N)) W R q,
+    Sorted le_t (map fst s) /\ adjacent_dup_ino s = false /\ ~ NoDup (map iname (map fst s)) /\
+    dup_check (map fst s) = None /\
+    (forall s' m tgt, W (R ++ s') <> Some (OLink m tgt)) /\ ~ under R q /\
+    fst (run nm sm nd 100 W R (ops_of_sorted idorder all_flags (INode [] KDir [] [] (map fst s)))) q <> W q.
+Proof.
+  exists same_ino_level, world0, R0, [s_w; s_outside; s_pwn].
+  split; [repeat constructor|]. split; [vm_compute; reflexivity|].
+  split; [intro H; inversion H as [|? ? Hn _]; apply Hn; left; reflexivity|].
+  split; [vm_compute; reflexivity|].
+  split; [exact world0_no_links|]. split; [exact outside_pwn_not_under|].
+  vm_compute. discriminate.
+Qed.
+Print Assumptions dup_check_ino_exempt_refuted.
